@@ -76,12 +76,16 @@ pub fn extreme_numbers(thorough: bool) -> Vec<num_bigint::BigInt> {
     v
 }
 
-fn index_values() -> Vec<Vec<u8>> {
+pub fn index_values() -> Vec<Vec<u8>> {
     // small counts, then 2/3/4-byte operands with a single high bit in each byte position (decoders that mask the wrong byte),
-    // non-minimal small counts, the largest 4-byte value and a negative count
+    // non-minimal small counts, the largest 4-byte value, a negative count (second mutation sweep: and the last four)
     vec![
         h("03"), h("04"), h("05"), h("08"), h("09"), h("10"), h("14"), h("15"), h("21"), h("22"), h("ffffff7f"), h("83"),
         h("8000"), h("0180"), h("010080"), h("01008000"), h("00008000"), h("08008000"), h("01800000"), h("01000080"), h("02000000"), h("0900"),
+        // 4-byte operands whose top byte carries magnitude bits (2^24, 2^24 + 1, 2^30): a decoder that masks the top byte
+        // wrongly turns them into 0 / 1, which a shift count shows; and a 5-byte zero (index operands of more than four bytes are
+        // an ambiguous prescription in the reference - pre- and post-Genesis rules differ - so this one only exercises totality)
+        h("00000001"), h("01000001"), h("00000040"), h("0000000000"),
     ]
 }
 
@@ -182,8 +186,22 @@ fn huge_operand(op: u8, st: &Stack) -> bool {
     if !matches!(op, 0x80 | 0x98 | 0x99) {
         return false;
     }
-    // either of the two operands (an implementation may read them in either order)
-    st.iter().rev().take(2).any(|t| t.len() <= 8 && ri::num(t).magnitude() > &num_bigint::BigUint::from(1u32 << 16))
+    // either of the two operands (an implementation may read them in either order). The classification must not depend on
+    // how the REFERENCE decodes the operand: a library that mis-decodes `01000080` (minus one) as 2^31 - 1 allocates 2 GiB
+    // per worker thread and the explorer is OOM-killed instead of reporting it (second mutation sweep). Every operand of
+    // three or more bytes - anything some decoder could read as more than 65535 - is evaluated in child processes.
+    st.iter().rev().take(2).any(|t| t.len() >= 3)
+}
+
+/// Operand alphabet of the isolated space: V and the index alphabet.
+pub fn operand_alphabet() -> Vec<Vec<u8>> {
+    let mut w = values();
+    for x in index_values() {
+        if !w.contains(&x) {
+            w.push(x);
+        }
+    }
+    w
 }
 
 /// Run one program on both sides and report the first divergence.
@@ -258,15 +276,21 @@ pub fn spaces(tier: Tier) -> Vec<Space> {
     }
     // (a') size/count operands large enough to make an implementation allocate: child processes with an allocation budget
     {
-        let vals = vals.clone();
-        let big: Vec<Vec<u8>> = vec![h("ffffff7f"), h("ffffff00"), h("0000008000"), h("ffff7f"), h("01008000"), h("00008000"), h("08008000"), h("01000080")];
-        v.push(Space::isolated("huge-operands", 3 * 22 * 8 * 2, move |case, acc| {
-            let c = crate::engine::coords(case.idx, &[3, 22, 8, 2]);
+        // every ordered pair over W = V + index alphabet in which at least one operand has three or more bytes (exactly the
+        // stacks the in-process spaces leave out), under NUM2BIN, LSHIFT and RSHIFT
+        let w = Arc::new(operand_alphabet());
+        let nw = w.len() as u64;
+        v.push(Space::isolated("huge-operands", 3 * nw * nw, move |case, acc| {
+            let c = crate::engine::coords(case.idx, &[3, nw, nw]);
             let op = [0x80u8, 0x98, 0x99][c[0] as usize];
-
-            let st: Stack = if c[3] == 0 { vec![vals[c[1] as usize].clone(), big[c[2] as usize].clone()] } else { vec![big[c[2] as usize].clone(), vals[c[1] as usize].clone()] };
-            if op == 0x80 && st.last().map(|t| t.len() <= 8 && ri::num(t) > num_bigint::BigInt::from(1 << 26)).unwrap_or(false) {
-                // NUM2BIN to a size of 2^31-1 legitimately produces a 2 GiB item: a memory question, not conformance/totality
+            let st: Stack = vec![w[c[1] as usize].clone(), w[c[2] as usize].clone()];
+            if !huge_operand(op, &st) {
+                acc.bump("evaluated_in_process_by_op_on_stacks", 1);
+                return;
+            }
+            if op == 0x80 && st.last().map(|t| t.len() <= 8 && ri::num(t) > num_bigint::BigInt::from(1 << 20)).unwrap_or(false) {
+                // NUM2BIN to a size above 1 MiB legitimately produces an item of that size (2 GiB for 2^31-1): a memory and time question, not conformance/totality; sizes up to 1 MiB are decided in index-operand-widths
+                acc.bump("num2bin_to_more_than_1MiB_not_evaluated", 1);
                 return;
             }
             let mut toks = pushes_for(&st, &vec![]);
@@ -282,7 +306,7 @@ pub fn spaces(tier: Tier) -> Vec<Space> {
     }
     // (a'') large items: results whose size crosses every script-number encoding threshold (OP_SIZE, CAT, SPLIT, NUM2BIN on big blobs)
     {
-        let sizes: Vec<usize> = vec![127, 128, 255, 256, 32767, 32768, 65535, 65536, 524287, 524288, 600000, 8388607, 8388608];
+        let sizes: Vec<usize> = vec![127, 128, 255, 256, 32767, 32768, 65535, 65536, 524287, 524288, 600000, 8388607, 8388608, 0x812345];
         let ns = sizes.len() as u64;
         v.push(Space::new("large-items", ns * 4, move |case, acc| {
             let c = crate::engine::coords(case.idx, &[ns, 4]);
